@@ -56,10 +56,12 @@ Step(ev) ==
             /\ UNCHANGED blk
       [] ev.e = "Panic" ->
             \* a panic that escapes a library call is a violation of the property whose API was being called
-            /\ Judge(ev, {"C12.panic_in_library_code",
-                          CASE ev.k = "reader" -> "C07.panic_instead_of_error"
-                            [] ev.k \in {"flusher", "flusher2"} -> "C08.panic_instead_of_error"
-                            [] OTHER -> "C05.panic_during_teardown"})
+            \* (k: the actor that panicked; for the poller also the side of the reactor: input / output path)
+            /\ Judge(ev, CASE ev.k = "reader" -> {"C12.panic_in_library_code", "C07.panic_instead_of_error"}
+                           [] ev.k \in {"flusher", "flusher2"} -> {"C12.panic_in_library_code", "C08.panic_instead_of_error"}
+                           [] ev.k = "poller:output" -> {"C08.panic_in_poller_write_path"}
+                           [] ev.k = "poller:input" -> {"C04.panic_in_poller_read_path"}
+                           [] OTHER -> {"C12.panic_in_library_code", "C05.panic_during_teardown"})
             /\ UNCHANGED <<o, blk>>
       [] ev.e = "SockState" -> o' = [o EXCEPT !.peerPending = ev.n] /\ UNCHANGED <<viol, blk>>
       [] ev.e = "Blocked" ->
